@@ -22,6 +22,9 @@ def run(rep, prog, tier):
     r4(rep, prog)
     from .c04 import r5 as merge_targets
     merge_targets(rep, prog, "C02-R5")
+    rep.rule("C02-R7", "the merged segment resumes the delete queue where its sources stand AFTER they were advanced: in segment_updater::merge the delete cursor given to the new SegmentEntry is read only after the loop over advance_deletes has completed (shared with C04-R1); a cursor cloned before the loop makes the next commit re-apply, without the per-document opstamp test, deletes that are older than documents of the merged segment")
+    from .c04 import merged_cursor
+    merged_cursor(rep, prog, "C02-R7")
     rep.rule("C02-R6", "an accepted batch is indexed completely: in index_documents the loop over one document group (the adds of one IndexWriter::run batch, already stamped and acknowledged) is left only when its iterator is exhausted or with an error; a `break` out of it on an Ok path drops acknowledged adds")
     rule_loop_exhausted(rep, prog, "C02-R6", I + "index_writer::index_documents", {I + "segment_writer::SegmentWriter::add_document"}, "the documents of one group")
 
